@@ -48,19 +48,26 @@ def build_engine():
 def build_replayer(pkgdir, tag):
     """Builds the native replay binary from /repo's current tree + harness overlay."""
     ov = {}
-    hdir = os.path.join(ROOT, "harness", os.path.basename(pkgdir))
+    base = os.path.basename(pkgdir)
+    hdir = os.path.join(ROOT, "harness", base)
+    os.makedirs(os.path.join(ROOT, "bin"), exist_ok=True)
     for f in sorted(glob.glob(os.path.join(hdir, "*.go"))):
         b = os.path.basename(f)
         if b.endswith("_engine.go"):
             continue
         ov[os.path.join(REPO, pkgdir, "zz_verif_" + b)] = f
-    main_src = os.path.join(ROOT, "harness", "main_" + os.path.basename(pkgdir), "main.go")
-    ov[os.path.join(REPO, "zz_verif_main_" + tag, "main.go")] = main_src
-    os.makedirs(os.path.join(ROOT, "bin"), exist_ok=True)
+    if base != "slog":
+        # the native intrinsics are shared: re-package the slog copy
+        src = open(os.path.join(ROOT, "harness", "slog", "v_native.go")).read()
+        gen = os.path.join(ROOT, "bin", "v_native_%s.go" % base)
+        open(gen, "w").write(src.replace("package slog", "package " + base, 1))
+        ov[os.path.join(REPO, pkgdir, "zz_verif_v_native.go")] = gen
+    main_src = os.path.join(ROOT, "harness", "main_" + base, "main.go")
+    ov[os.path.join(REPO, "slog", "zz_verif_main_" + tag, "main.go")] = main_src
     ovf = os.path.join(ROOT, "bin", "overlay-%s.json" % tag)
     json.dump({"Replace": ov}, open(ovf, "w"))
     exe = os.path.join(ROOT, "bin", "vreplay-" + tag)
-    r = sh(["go", "build", "-overlay", ovf, "-o", exe, "./zz_verif_main_" + tag], cwd=REPO, env=GOENV)
+    r = sh(["go", "build", "-overlay", ovf, "-o", exe, "./slog/zz_verif_main_" + tag], cwd=REPO, env=GOENV)
     if r.returncode != 0:
         print("ERROR native replay build failed\n" + r.stdout)
         sys.exit(2)
@@ -151,6 +158,7 @@ def main():
         runs_ev.append({"harness": run["harness"], "params": params, "paths": res["paths"],
                         "infeasible_or_assumed_away": res["aborted"], "queries": q,
                         "covers": res.get("covers"), "max_decisions": res.get("max_decisions"),
+                        "inconclusive_feasibility_queries_branch_kept": res.get("inconclusive_feasibility_kept", 0),
                         "solver_time_s": round(res["solver_time_s"], 2),
                         "wall_s": round(time.time() - t1, 2),
                         "violations": [v["label"] for v in res.get("violations") or []]})
@@ -163,7 +171,7 @@ def main():
                        "known": v.get("known", ""), "detail": v.get("detail"),
                        "stack": (v.get("stack") or [])[:12], "items": v["replay"]},
                       open(rp, "w"), indent=1)
-            env = dict(os.environ, HOME="/nonexistent-home")
+            env = dict(os.environ, HOME="/nonexistent-home", VERIF_REPEAT=str(spec.get("replay_repeat", 1)))
             rr = sh([replayers[pkg], rp], cwd="/tmp", env=env, timeout=120)
             want = "VPANIC" if v["label"] == "panic" else "VFAIL " + v["label"]
             confirmed = any(l.startswith(want) for l in rr.stdout.splitlines())
